@@ -1,6 +1,7 @@
 """C33 native drivers: replay (concretise abstract-string counterexamples from a pool of tags) and cross-check of
 the trusted string/path axioms of contracts/C33.py against CPython."""
 import itertools
+import asyncio
 import json
 import posixpath
 import re
@@ -119,8 +120,67 @@ def crosscheck(n):
 
         if PurePosixPath(j).parent.as_posix() != s or PurePosixPath(j).name != a:
             bad.append(("pathlib", s, a))
-    print(json.dumps({"inputs": checked, "axiom_disagreements": len(bad), "samples": bad[:3]}))
-    sys.exit(3 if bad else 0)
+    if bad:
+        print(json.dumps({"inputs": checked, "axiom_disagreements": len(bad), "samples": bad[:3]}))
+        sys.exit(3)
+    wrong = asyncio.run(asyncio.wait_for(schedule_names(), 120))
+    print(json.dumps({"inputs": checked, "axiom_disagreements": 0, "native_contract_failures": 1 if wrong else 0, "samples": [wrong] if wrong else []}))
+    sys.exit(1 if wrong else 0)
+
+
+async def schedule_names():
+    """the job names the engine really builds: a real ScheduleStep (local deployment, in-memory database) for step names at the root
+    (`/`, what a CWL document that is a single tool gets), one and two levels deep, tags with multi-digit components: every job name
+    splits back into the step name and the tag"""
+    import shutil
+    import tempfile
+
+    from streamflow.core.config import BindingConfig
+    from streamflow.core.deployment import DeploymentConfig, Target
+    from streamflow.core.workflow import Status, Token, Workflow
+    from streamflow.main import build_context
+    from streamflow.workflow.executor import StreamFlowExecutor
+    from streamflow.workflow.port import ConnectorPort
+    from streamflow.workflow.step import DeployStep, ScheduleStep
+    from streamflow.workflow.token import JobToken, TerminationToken
+
+    base = tempfile.mkdtemp(prefix="c33s.")
+    context = build_context({"database": {"type": "default", "config": {"connection": ":memory:"}}, "path": base})
+    try:
+        for k, prefix in enumerate(["/", "/a", "/a/b", "/scatter-step"]):
+            wf = Workflow(context=context, name=f"c33-{k}", config={})
+            cfg = DeploymentConfig(name=f"site{k}", type="local", config={}, external=True, lazy=False, workdir=base)
+            dep = wf.create_step(cls=DeployStep, name=posixpath.join("__deploy__", cfg.name), deployment_config=cfg, connector_port=wf.create_port(cls=ConnectorPort))
+            sched = wf.create_step(cls=ScheduleStep, name=posixpath.join(prefix, "__schedule__"), job_prefix=prefix, connector_ports={cfg.name: dep.get_output_port()},
+                                   binding_config=BindingConfig(targets=[Target(deployment=cfg)]))
+            in_port = wf.create_port()
+            sched.add_input_port("x", in_port)
+            await wf.save(context.database)
+            tags = ["0", "0.3", "0.10", "0.4.12"]
+            for tag in tags:
+                t = Token(value=tag, tag=tag, recoverable=True)
+                await t.save(context.database, port_id=in_port.persistent_id)
+                in_port.put(t)
+            in_port.put(TerminationToken())
+            await asyncio.wait_for(StreamFlowExecutor(wf).run(), 60)
+            jobs = [t for t in sched.get_output_port("__job__").token_list if isinstance(t, JobToken)]
+            for jt in jobs:
+                await context.scheduler.notify_status(jt.value.name, Status.COMPLETED)
+            if sorted(t.tag for t in jobs) != sorted(tags):
+                return {"failure": "the schedule step did not create one job per tag", "step": prefix, "jobs": [t.value.name for t in jobs]}
+            for jt in jobs:
+                name = jt.value.name
+                if utils.get_job_step_name(name) != prefix or utils.get_job_tag(name) != jt.tag:
+                    return {"failure": "a job name built by the engine does not split back into its step name and tag", "step": prefix, "tag": jt.tag, "job_name": name,
+                            "splits_into": [utils.get_job_step_name(name), utils.get_job_tag(name)]}
+        return None
+    finally:
+        try:
+            await context.deployment_manager.undeploy_all()
+            await context.close()
+        except Exception:
+            pass
+        shutil.rmtree(base, ignore_errors=True)
 
 
 main({"replay": replay, "crosscheck": crosscheck})
